@@ -182,7 +182,10 @@ def live_details(regs_list):
         for b in r._bitfields:
             fs.append([b.reset_value, 1 if b.hidden else 0, ACC_ID[b.access.label.upper()], b.config_width - b.width, b.name, b.uid,
                        [[e.get_value_int(), e.name] for e in b.get_enums()]])
-        out.append([r.get_value(raw=True), r.name, r.uid, ACC_ID[r.access.label.upper()], 1 if r.reverse else 0, fs])
+        subs = list(r.sub_regs)
+        grp = [subs[0].width if subs else 0, len(subs), 1 if (subs and r.reverse_subregs_order) else 0,
+               sorted(int(a) for a in (r.alt_widths or [])) if subs else [], [k for sub in subs for k in (sub.name, sub.uid)]]
+        out.append([r.get_value(raw=True), r.name, r.uid, ACC_ID[r.access.label.upper()], 1 if r.reverse else 0, fs, grp])
     return out
 
 
@@ -1767,7 +1770,15 @@ def _correspondence(ck, drv, cases, recs):
             elif it["op"] == "cfg":
                 det = dmeta[idx]
                 names = det["names"]
-                eligible = (all(r[4] == 0 for r in det["regs"]) and len({r[1] for r in det["regs"]}) == len(det["regs"])
+                # byte-reversed / alternative-width GROUPS are modelled (sub-register structure in the details table); not modelled:
+                # a reversed plain register, a group that is not exactly as wide as its sub-registers (open finding), a group with
+                # bit-fields of its own, a register name that is also the name / uid of a sub-register
+                lw = layouts[idx]["regs"]
+                subkeys = {k for r in det["regs"] for k in r[6][4]}
+                eligible = (all((r[4] == 0 and not r[6][3]) if r[6][0] == 0 else
+                                (k < len(lw) and r[6][0] * r[6][1] == lw[k][1] and not r[5]) for k, r in enumerate(det["regs"]))
+                            and not any(r[1] in subkeys for r in det["regs"])
+                            and len({r[1] for r in det["regs"]}) == len(det["regs"])
                             and all(len({f[4] for f in r[5]}) == len(r[5]) for r in det["regs"]))
                 if not eligible:
                     continue
@@ -1868,8 +1879,12 @@ def _correspondence(ck, drv, cases, recs):
                 continue
             expected_bad = {"devices/kw45b41z8/ifr_cmactable_a0.json", "devices/kw47b42zb7/ifr_cmactable_a0.json", "common/xmcd/flexspi_ram_simplified.json",
                             "common/xmcd/xspi_ram_simplified.json", "devices/mimx9131/fuses.json", "devices/mimx9596/fuses.json"}
+            # groups wider than their sub-registers: the two mcxn946 a0 pages of knownIllFormed (open finding C12-group-wider-than-subregs)
+            expected_groups = {"devices/mcxn946/pfr_cmpa_a0.json", "devices/mcxn946/pfr_cfpa_a0.json"}
             for f, cl in bad.items():
                 if f in expected_bad and set(cl) <= {"regnames", "findreg", "fieldnames"}:
+                    continue
+                if f in expected_groups and set(cl) <= {"groups"}:
                     continue
                 i = next(k for k, l in enumerate(layouts) if l["file"] == f)
                 drv.ask(f"sel {i}")
@@ -1886,7 +1901,7 @@ def _correspondence(ck, drv, cases, recs):
                 ck.broken.append(f"generated database table fact fails [{'+'.join(cl)}]: {f}{detail}; used by {', '.join(users)}")
             ck.extra["details_checker"] = {"failing": bad, "how": "the clauses of gen_details_ok / gen_fcb_table / gen_bca_fcf_table / gen_memcfg_table evaluated "
                                            "natively per layout (names the database file and the fact when one of these theorems stops checking; the "
-                                           "files listed here on a green run are the named exceptions knownDuplicateRegNames / knownDuplicateFieldNames)"}
+                                           "files listed here on a green run are the named exceptions knownDuplicateRegNames / knownDuplicateFieldNames and, for clause 'groups' of gen_groups_ok_partial, knownIllFormed)"}
             continue
         sm.note(inp, cls=inp[1] if len(inp) > 1 and isinstance(inp[1], str) else str(inp[0]))
         sm.compare(inp, want, got, "Lean model differs from the implementation" if inp[0] not in ("sel", "dump", "tzwords", "count")
